@@ -43,8 +43,21 @@ pub enum ChildEnd {
     Timeout,
 }
 
+/// A child must not outlive this process (a killed run would otherwise leave hanging
+/// candidates spinning, holding whatever file descriptors they inherited).
+pub fn die_with_parent(cmd: &mut Command) {
+    use std::os::unix::process::CommandExt;
+    unsafe {
+        cmd.pre_exec(|| {
+            libc::prctl(libc::PR_SET_PDEATHSIG, libc::SIGKILL);
+            Ok(())
+        });
+    }
+}
+
 pub fn run_with_timeout(cmd: &mut Command, secs: u64) -> (ChildEnd, String) {
     cmd.stdout(Stdio::piped()).stderr(Stdio::null());
+    die_with_parent(cmd);
     let mut child = match cmd.spawn() {
         Ok(c) => c,
         Err(e) => {
@@ -104,6 +117,7 @@ fn spawn(job: &Job, prop: &str, tier: Tier, seed: u64, outdir: &str) -> Child {
         .stdin(Stdio::null())
         .stdout(Stdio::from(log))
         .stderr(Stdio::from(log2));
+    die_with_parent(&mut cmd);
     cmd.spawn().unwrap_or_else(|e| {
         eprintln!("cannot spawn worker: {e}");
         std::process::exit(2)
